@@ -10,6 +10,7 @@ import time
 
 from .. import common, gen, lin, observe, probe
 from ..observe import same
+from ..driver import spell_positionally
 from ..sched import LateHandles, Recorder, Sched
 
 PROP = 'C10'
@@ -175,7 +176,9 @@ def sequential(dc, sc, res, rng, label):
                 ttl = gen.pick(rng, [None, None, None, gen.ttl_exact(1.5), gen.ttl_exact(30.5)])
                 tag = gen.pick(rng, [None, 't'])
                 clock.begin()
-                key = cache.push(v, prefix=p, side=side, expire=ttl, tag=tag)
+                pa, pk = spell_positionally(rng, 'push', (v,), {'prefix': p, 'side': side, 'expire': ttl, 'tag': tag})
+                res.count('calls_spelled_positionally', 1 if len(pa) > 1 else 0)
+                key = cache.push(*pa, **pk)
                 now = clock.reads[0]
                 exp = mdl.push(v, p, side, None if ttl is None else now + ttl, tag)
                 hist.append(('push', p, side, ttl, key))
@@ -191,10 +194,10 @@ def sequential(dc, sc, res, rng, label):
                 op = 'pull' if rng.random() < 0.7 else 'peek'
                 flags = rng.random() < 0.3
                 clock.begin()
-                if flags:
-                    got = getattr(cache, op)(prefix=p, side=side, expire_time=True, tag=True)
-                else:
-                    got = getattr(cache, op)(prefix=p, side=side)
+                pa, pk = spell_positionally(rng, op, (), dict({'prefix': p, 'side': side},
+                                                             **({'expire_time': True, 'tag': True} if flags else {})))
+                res.count('calls_spelled_positionally', 1 if pa else 0)
+                got = getattr(cache, op)(*pa, **pk)
                 it, skipped = mdl.head(p, side, clock.reads[0] if clock.reads else clock.now_peek(), op == 'pull')
                 if skipped:
                     res.count('pulls_of_expired_heads', skipped)
